@@ -442,18 +442,30 @@ class Encoder:
         if isinstance(base, (sp.Mul, sp.Pow)):
             factors = base.as_powers_dict()
             if len(factors) > 1 or any(k != 1 for k in factors.values()):
-                self.used_axioms.add("law (a*b)**x = a**x * b**x for positive a, b (every factor is assumed positive)")
+                # (a*b)**x = a**x * b**x holds for POSITIVE a, b: the power of the whole base is its own term, and the product form is
+                # offered as a conditional law (all factors positive => equal).  Nothing is assumed about the signs of the factors.
+                self.used_axioms.add("law (a*b)**x = a**x * b**x, conditional on every factor being positive")
                 num, den = None, None
+                conds = []
                 for f_, k_ in factors.items():
                     if f_.is_number and f_ == 1:
                         continue
                     if not (f_.is_number and f_ > 0):
                         fn_, fd_ = self.rat(f_)
-                        self.side.append((fn_ * fd_ if fd_ is not None else fn_) > 0)
+                        conds.append((fn_ * fd_ if fd_ is not None else fn_) > 0)
                     n_, d_ = self._pow(f_, sp.simplify(k_ * exp))
                     num = self._mul(num, n_)
                     den = self._mul(den, d_)
-                return (num if num is not None else z3.RealVal(1), den)
+                num = num if num is not None else z3.RealVal(1)
+                wn, wd = self._pow_atomic(base, exp)
+                lhs = self._mul(wn, den)
+                rhs = self._mul(num, wd)
+                self.side.append(z3.Implies(z3.And(*conds) if conds else z3.BoolVal(True), lhs == rhs))
+                return (wn, wd)
+        return self._pow_atomic(base, exp)
+
+    def _pow_atomic(self, base, exp):
+        """base**exp with a symbolic exponent, base taken as one term"""
         k, rest = exp.as_coeff_Add()
         if not (isinstance(k, sp.Integer) or k == 0):
             frac = k - sp.floor(k)
@@ -463,7 +475,7 @@ class Encoder:
             self.used_axioms.add("law b**x * b**y = b**(x+y)")
             num, den = self._pow_z3(self._single(base), int(k)) if int(k) != 0 else (None, None)
             for t_ in rest.args:
-                n_, d_ = self._pow(base, t_)
+                n_, d_ = self._pow_atomic(base, t_)
                 num = self._mul(num, n_)
                 den = self._mul(den, d_)
             return (num if num is not None else z3.RealVal(1), den)
